@@ -4,7 +4,8 @@ From PFDL Require Export NetModel Monitors.
 
 Definition env_of (c : runcase) : envcfg :=
   {| ec_orc := orc_of (rc_vals c); ec_imm := imm_of (rc_imm c);
-     ec_react := fun k => nth k (rc_react c) None; ec_mutate := rc_mutate c |}.
+     ec_react := fun k => nth k (rc_react c) None; ec_react_all := rc_react_all c;
+     ec_mutate := rc_mutate c |}.
 
 Definition net_fuel : nat := 4000.
 
@@ -20,16 +21,16 @@ Definition gen_net (c : runcase) : res (list (option nat) * list trans * list (l
   rbind (net_init (p_tasks (rc_prog c)) true) (fun s =>
   Ok (ns_places s, ns_trans s, ns_cbs s, ns_start_place s, ns_final_place s)).
 
-Definition judge_net_with (p : proj) (mon : list apicall -> list callrec -> bool)
+Definition judge_net_with (p : proj) (mon : runcase -> list callrec -> bool)
            (c : runcase) (impl : list callrec) : verdict :=
   match run_net c with
   | Ok tr => {| v_model := 0; v_disagree := first_disagree p tr impl 0;
                 v_full_disagree := first_disagree P_full tr impl 0;
-                v_mon_impl := mon (rc_script c) impl; v_mon_model := mon (rc_script c) tr |}
+                v_mon_impl := mon c impl; v_mon_model := mon c tr |}
   | Fuel => {| v_model := 2; v_disagree := None; v_full_disagree := None;
-               v_mon_impl := mon (rc_script c) impl; v_mon_model := true |}
+               v_mon_impl := mon c impl; v_mon_model := true |}
   | Exn _ => {| v_model := 3; v_disagree := None; v_full_disagree := None;
-                v_mon_impl := mon (rc_script c) impl; v_mon_model := true |}
+                v_mon_impl := mon c impl; v_mon_model := true |}
   | Unsupported => {| v_model := 4; v_disagree := None; v_full_disagree := None;
-                      v_mon_impl := mon (rc_script c) impl; v_mon_model := true |}
+                      v_mon_impl := mon c impl; v_mon_model := true |}
   end.
